@@ -201,12 +201,24 @@ def run_tlc(module, cfg, workers='auto', env=None, timeout=900, simulate=None, d
     m = _DEPTH.search(out)
     if m:
         res.depth = int(m.group(1))
+    pending = None
     for line in out.splitlines():
+        # TLC wraps long values over several lines: accumulate until the value parses
+        if pending is not None:
+            pending += '\n' + line
+            try:
+                res.prints.append(parse_tla(pending))
+                pending = None
+            except (ValueError, IndexError):
+                if pending.count('\n') > 400:
+                    pending = None
+            continue
         if line.startswith('<<"'):
             try:
                 res.prints.append(parse_tla(line))
-            except ValueError:
-                pass
+            except (ValueError, IndexError):
+                pending = line
+            continue
         m = _COV.match(line)
         if m and m.group(6) == module:
             res.coverage[m.group(1)] = res.coverage.get(m.group(1), 0) + int(m.group(8))
